@@ -242,6 +242,7 @@ func cmdCostCheck(args []string) int {
 	}
 	// (2) deep nesting, long attribute lists, many CSS escapes, many links: time must not blow up
 	ugc := Recipe{{M: "UGCPolicy"}, {M: "AllowStyles", Props: []string{"color", "font-family", "border", "background"}, Scope: "glob"}, {M: "AllowDataURIImages"},
+		{M: "AllowAttrs", Attrs: []string{"src", "href", "cite", "rel", "target"}, Scope: "els", Els: []string{"img", "a", "q", "audio", "iframe", "source", "input"}},
 		{M: "AllowElementsMatching", Pat: "^custom-"}, {M: "RewriteSrc", Fid: "f:" + FuncName(RewriteProxy)}, {M: "AddTargetBlankToFullyQualifiedLinks", B: true}}
 	for i := range ugc {
 		ugc[i].norm()
@@ -264,6 +265,19 @@ func cmdCostCheck(args []string) int {
 		"data-uri":      func(n int) string { return `<img src="data:image/png;base64,` + strings.Repeat("iVBORw0K", n) + `">` },
 		"lt-flood":      func(n int) string { return strings.Repeat("<", n) + strings.Repeat("<a ", n) },
 		"font-families": func(n int) string { return `<span style="font-family: ` + strings.Repeat("a, ", n) + `b">x</span>` },
+	}
+	// every URL value of the catalogue in every src/href/cite position, with every policy feature on: must return normally
+	for _, el := range []string{"img", "a", "q", "audio", "iframe", "source", "input"} {
+		for _, k := range []string{"src", "href", "cite"} {
+			for _, v := range genURLVals {
+				input := string(Serialise([]Tok{{T: "start", N: el, A: []Attr{{k, v}, {"rel", "x"}, {"target", "_top"}}}}, nil))
+				_, _, _, pm, _ := sanitizeCounted(pu, input, 100000)
+				res.Execs++
+				if pm != "" {
+					add("panic:url", fmt.Sprintf("Sanitize panicked on %q: %s", input, pm), CostReplayFile{Kind: "style", Recipe: ugc, Input: input, Budget: 100000})
+				}
+			}
+		}
 	}
 	names := []string{}
 	for k := range gens {
